@@ -388,6 +388,9 @@ def work(ctx, tier):
     # ------------------------------------------------------------------ HTTP-dates while the wall clock moves between two reads
     stepping_clock_dates(ctx, viol, rng, 400 if tier == "quick" else 8000)
 
+    # ------------------------------------------------------------------ one retry_after_or object shared by threads
+    shared_strategy_threads(ctx, viol, rng, tier)
+
     # ------------------------------------------------------------------ end to end
     n2 = (10000 if tier == "quick" else 160000) // ctx.nshards
     for i in range(n2):
@@ -400,6 +403,40 @@ def work(ctx, tier):
     if ctx.shard == 0:
         ctx.sample({"value": "9" * 20 + "...(len 309)", "shape": "dict", "where": "headers", "expect": "no raise; hint None or non-negative float"})
         ctx.sample({"value": date_cases[5][0], "shape": "pairs", "casing": "RETRY-AFTER", "expect": "hint ~ 30 s"})
+
+
+def shared_strategy_threads(ctx, viol, rng, tier):
+    """retry_after_or(...) is usually built once and handed to every policy: two threads asking it at the same time (one with a hint
+    and plenty of deadline left, one without a hint and almost none) each get what they get alone (controlled scheduler,
+    pre-emption before every source line of the library)."""
+    from redress.strategies import BackoffContext
+    from redress import Classification
+
+    from .. import sched
+
+    def bc(hint, remaining, attempt=1):
+        return BackoffContext(attempt=attempt, classification=Classification(klass=ErrorClass.RATE_LIMIT, retry_after_s=hint), prev_sleep_s=None, remaining_s=remaining, cause="exception")
+
+    def v2(key, msg, case):
+        viol("hint-" + key, msg, case)
+
+    world = env.World()
+    world.draws = lambda a, b: a  # no jitter: the answers are exact
+    k = 0
+    with env.active(world):
+        for hint in (2.0, 5.0, 30.0, 0.0):
+            for rem_other in (0.25, 0.5, 3.0):
+                for jit in (0.0, 0.25):
+                    k += 1
+                    if k % ctx.nshards != ctx.shard or (tier == "quick" and k % 3):
+                        continue
+                    label = f"retry_after_or(fallback 0.125, jitter_s={jit}): Retry-After {hint} with 60 s left | no hint with {rem_other} s left"
+                    ok = common.function_threads(ctx, v2, label, lambda j_=jit: retry_after_or(lambda c: 0.125, jitter_s=j_), [bc(hint, 60.0), bc(None, rem_other)], [bc(hint, 60.0, 2)],
+                                                 limit=40 if tier == "quick" else 400, counter="shared_strategy_thread_schedules")
+                    if not ok:
+                        sched.uninstall_monitor()
+                        return
+    sched.uninstall_monitor()
 
 
 def stepping_clock_dates(ctx, viol, rng, n):
@@ -589,6 +626,7 @@ def conclude(ctx):
         "e2e:429-after-another-class": (ctx.cnt["e2e:429-after-another-class"], 100),
         "e2e:other-class-before-the-429": (ctx.cnt["e2e:other-class-before-the-429"], 100),
     }
+    floors["shared_strategy_thread_schedules"] = (ctx.cnt["shared_strategy_thread_schedules"], 100)
     if not ctx.cnt["stepping_clock_not_installable"]:
         floors["stepping_clock_dates"] = (ctx.cnt["stepping_clock_dates"], 200)
     return dict(
@@ -596,7 +634,8 @@ def conclude(ctx):
             "systematic pools (digit strings of length 1..10000 dense around 308/309/4300/4301 x 21 decorations; odd strings; IMF-fixdates around now; "
             "malformed/huge dates; non-string values) x 9 container shapes x 4 key casings x {exc.headers, exc.response.headers, exc.retry_after} + seeded random values; "
             "one evaluation = one call of the real classifier/parser; distinct = distinct (value, container, casing, location); end-to-end = real Retry/AsyncRetry runs with retry_after_or as the default strategy or registered for RATE_LIMIT only "
-            "next to another default, 429s preceded by hint-less 503s; HTTP-dates are parsed again with the parser module's `datetime` replaced by a clock that advances on every reading"
+            "next to another default, 429s preceded by hint-less 503s; HTTP-dates are parsed again with the parser module's `datetime` replaced by a clock that advances on every reading; one retry_after_or object is asked by two threads at once "
+            "(controlled scheduler) and must answer each as it answers it alone"
         ),
         evaluations=ctx.cnt["classifier_calls"] + ctx.cnt["parser_calls"] + ctx.cnt["end_to_end_runs"],
         nontrivial=len(ctx.sets["nontrivial"]),
